@@ -26,7 +26,9 @@ META = {
 }
 
 NAMES = ["out.json", "a#b.json", "q?x.json", "s;p.json", "c:d.json", "with space.json", "ünï-世界.json", "sub/dir/deep.json",
-         "./rel.json", "%41.json", "a&b=c.json", "trailing#", "x.prov?"]
+         "./rel.json", "%41.json", "a&b=c.json", "trailing#", "x.prov?",
+         # names that are not in Unicode normal form C (a file name is the characters it is written with)
+         "cafe\u0301.json", "\u212bngstrom.json", "\u1112\u1161\u11ab.json"]
 
 
 OLD = b"OLD CONTENT " * 20000        # longer than any document written here: a destination that is not truncated shows
